@@ -73,5 +73,28 @@ pub async fn claimed_name_grid(_a: &Value) -> Value {
             }
         }
     }
-    json!({"cells": out})
+    // a key the listener has already admitted legitimately comes back presenting a certificate for another network (same key, claimed name accepted)
+    let mut returning = Vec::new();
+    for (lname, l) in listeners.iter() {
+        let mut seq = Vec::new();
+        for cert_name in ["net-a", "net-b", "net-a"] {
+            let (ep, public) = raw_client(200, cert_name);
+            let id = anemo::PeerId(public);
+            let mut got_ack = false;
+            if let Ok(connecting) = ep.connect(l.local_addr(), "net-a") {
+                if let Ok(Ok(conn)) = tokio::time::timeout(Duration::from_millis(1500), connecting).await {
+                    if let Ok(Ok(mut rx)) = tokio::time::timeout(Duration::from_millis(700), conn.accept_uni()).await {
+                        let mut buf = [0u8; 8];
+                        got_ack = matches!(tokio::time::timeout(Duration::from_millis(500), rx.read_exact(&mut buf)).await, Ok(Ok(())));
+                    }
+                    conn.close(0u32.into(), b"done");
+                }
+            }
+            ep.close(0u32.into(), b"");
+            for _ in 0..50 { if !l.peers().contains(&id) { break; } tokio::time::sleep(Duration::from_millis(10)).await; }
+            seq.push(json!({"certificate_for": cert_name, "acknowledged": got_ack}));
+        }
+        returning.push(json!({"listener": lname, "same_key_three_dials": seq}));
+    }
+    json!({"cells": out, "returning": returning})
 }
